@@ -1881,3 +1881,50 @@ def _svd(it, a, **kw):
     if kw:
         raise Unsupported("svd options")
     return matalg.svd(it, a)
+
+
+# ----------------------------------------------------------------------------- numpy.random.Generator
+class GenObj:
+    """numpy.random.Generator: a stream of draws that is a deterministic function of its seed; normal() advances only this object"""
+    _count = [0]
+
+    def __init__(self, seed_desc):
+        GenObj._count[0] += 1
+        self.id = GenObj._count[0]
+        self.seed_desc = seed_desc
+        self.draws = 0
+
+    def __aovc_attr__(self, it, name):
+        return BoundMethod(self, name)
+
+    def __aovc_method__(self, it, name, args, kwargs):
+        if name in ("normal", "standard_normal"):
+            size = kwargs.get("size", args[2] if len(args) > 2 else (args[0] if name == "standard_normal" and args else None))
+            loc = args[0] if (name == "normal" and len(args) > 0) else kwargs.get("loc", 0)
+            scale = args[1] if (name == "normal" and len(args) > 1) else kwargs.get("scale", 1)
+            if size is None:
+                raise Unsupported("scalar draw")
+            self.draws += 1
+            shp = shape_arg(it, size)
+            a = sym_arr("draw!g%d!%d" % (self.id, self.draws), shp)
+            a.is_draw = (self.id, self.draws)
+            if not (is_conc(loc) and _num(loc) == 0 and is_conc(scale) and _num(scale) == 1):
+                snap = a.snapshot()
+                a2 = Arr(shp, lambda idx: r_add(loc, r_mul(scale, snap(idx))), "float")
+                a2.is_draw = a.is_draw
+                return a2
+            return a
+        return NotImplemented
+
+
+@ext("numpy.random.default_rng")
+def _default_rng(it, seed=None):
+    if isinstance(seed, GenObj):
+        return seed
+    return GenObj(seed)
+
+
+@ext("numba.prange")
+def _prange(it, *a):
+    it.ctx.notes.append("numba.prange treated as range (A-JIT); the loop summary proves the writes of different iterations disjoint")
+    return call_builtin(it, "range", list(a), {})
